@@ -13,6 +13,8 @@ import (
 	"github.com/jamespfennell/gtfs"
 	"github.com/jamespfennell/gtfs/extensions/nycttrips"
 	"github.com/jamespfennell/gtfs/journal"
+	gtfsrt "github.com/jamespfennell/gtfs/proto"
+	"google.golang.org/protobuf/proto"
 
 	"verif/gen"
 	"verif/sim"
@@ -236,6 +238,8 @@ func (d *dirSim) materialise(e *dirEntry, goodTarget []byte) {
 type c19Plan struct {
 	// faults[k] are applied immediately before the k-th Next call (0-based)
 	faults map[int][]c19Fault
+	// stallBefore-1: Next call before which the consumer stalls > 1 s (0 = never)
+	stallBefore int
 }
 
 type c19Fault struct {
@@ -270,6 +274,8 @@ type c19Tee struct {
 	yielded   [][]byte // bytes of the alternative that matched each yield, for the reference journal
 	extraGen  [][]byte
 	done      bool
+	// stallBefore-1 is the call before which the consumer stalls for more than a second (0: never)
+	stallBefore int
 }
 
 func (tee *c19Tee) fail(class, sig, detail string) {
@@ -363,6 +369,13 @@ func (tee *c19Tee) bytesFor(e *dirEntry, got string) []byte {
 func (tee *c19Tee) Next() *gtfs.Realtime {
 	d := tee.d
 	tee.applyFaults()
+	if tee.stallBefore == tee.call+1 {
+		// a slow consumer: more than a second of real time passes between two Next calls (the source
+		// reads the wall clock for its progress bookkeeping; there is no seam for it)
+		time.Sleep(1050 * time.Millisecond)
+		d.t.Fault("consumer-stall-1s")
+		d.t.Logf("before Next#%d: consumer stalls for 1.05 s", tee.call)
+	}
 	var r *gtfs.Realtime
 	pv, stack := guard(func() { r = tee.src.Next() })
 	call := tee.call
@@ -486,6 +499,10 @@ func genC19Case(t *sim.T) *c19Case {
 	cfg.ExplicitTime = true
 	w := gen.NewWorld(t, cfg)
 	nGood := t.Choose(9)
+	large := t.Chance(1, 12)
+	if large {
+		nGood = t.Range(9, 36) // large directories: batching / growth thresholds in the listing code
+	}
 	c := &c19Case{}
 	for i := 0; i < nGood+2; i++ {
 		b := gen.MarshalFeed(w.Tick())
@@ -495,8 +512,17 @@ func genC19Case(t *sim.T) *c19Case {
 			c.extra = append(c.extra, b)
 		}
 	}
+	// size thresholds of the read path: now and then one or two good files are far larger than the rest
+	if len(c.good) > 0 && t.Chance(1, 10) {
+		for k := t.Range(1, 2); k > 0; k-- {
+			i := t.Choose(len(c.good))
+			size := []int{70_000, 140_000, 300_000, 600_000}[t.Choose(4)] + t.Choose(5000)
+			c.good[i] = bloatFeed(c.good[i], size)
+			t.Probe("large-good-file")
+		}
+	}
 	nBad := t.Choose(7)
-	if nGood+nBad > 14 {
+	if !large && nGood+nBad > 14 {
 		nBad = 14 - nGood
 	}
 	used := map[string]bool{}
@@ -553,6 +579,23 @@ func genC19Case(t *sim.T) *c19Case {
 	return c
 }
 
+// bloatFeed appends an alert entity with a long description to a serialised feed (protobuf messages
+// concatenate), making the file size bytes larger while keeping it a valid, distinct message.
+func bloatFeed(b []byte, size int) []byte {
+	text := strings.Repeat("service notice ", size/15+1)[:size]
+	id := fmt.Sprintf("bloat-%d", size)
+	lang := "en"
+	extra := &gtfsrt.FeedMessage{Entity: []*gtfsrt.FeedEntity{{Id: &id, Alert: &gtfsrt.Alert{
+		InformedEntity:  []*gtfsrt.EntitySelector{{AgencyId: &lang}},
+		DescriptionText: &gtfsrt.TranslatedString{Translation: []*gtfsrt.TranslatedString_Translation{{Text: &text, Language: &lang}}},
+	}}}}
+	eb, err := proto.MarshalOptions{AllowPartial: true}.Marshal(extra)
+	if err != nil {
+		panic("harness: " + err.Error())
+	}
+	return append(append([]byte(nil), b...), eb...)
+}
+
 // runOnce materialises the case, applies plan and checks everything. Returns the violation.
 func runC19Once(t *sim.T, c *c19Case, plan c19Plan, extraCalls int, log bool) *sim.Violation {
 	dirSeq++
@@ -593,7 +636,7 @@ func runC19Once(t *sim.T, c *c19Case, plan c19Plan, extraCalls int, log bool) *s
 	}
 	t.Logf("list (%d entries)", len(d.ents))
 
-	tee := &c19Tee{d: d, src: src, plan: plan, extraGen: c.extra}
+	tee := &c19Tee{d: d, src: src, plan: plan, extraGen: c.extra, stallBefore: plan.stallBefore}
 	var j *journal.Journal
 	winStart, winEnd := time.Unix(0, 0), time.Unix(1<<40, 0)
 	pv, stack = guard(func() { j = journal.BuildJournal(tee, winStart, winEnd) })
@@ -782,7 +825,7 @@ func runC19(t *sim.T, tier string) *sim.Violation {
 	}
 	t.SimTime = float64(len(c.good)) * 60
 
-	enumerate := t.Chance(1, 6)
+	enumerate := t.Chance(1, 6) && len(c.entries) <= 10
 	if !enumerate {
 		plan := c19Plan{faults: map[int][]c19Fault{}}
 		nf := t.Weighted(3, 3, 2, 1, 1)
@@ -792,6 +835,10 @@ func runC19(t *sim.T, tier string) *sim.Violation {
 			f := c19Fault{pick: t.Choose(16), kind: t.Weighted(4, 2, 2, 1, 1), arg: t.Choose(256)}
 			plan.faults[at] = append(plan.faults[at], f)
 			fmt.Fprintf(&psig, "%d:%d:%d:%d;", at, f.pick, f.kind, f.arg)
+		}
+		if t.Chance(1, 300) && len(c.entries) > 0 {
+			plan.stallBefore = 1 + t.Range(1, len(c.entries))
+			fmt.Fprintf(&psig, "stall%d", plan.stallBefore)
 		}
 		t.Case = sim.HashStrings(lsig, psig.String())
 		t.Nontriv = btg || (nf > 0 && nGood > 0)
